@@ -271,6 +271,10 @@ SPELLINGS = ['configure-abs-build', 'configure-rel-build', 'configure-abs-src-fr
              'configure-rel-src-from-build', 'into-abs', 'into-rel', '9k-build', '9k-src-from-build',
              'into-rel-dotted']
 CWDS = ['src', 'parent', 'elsewhere']
+# False: unset; 'physical': the cwd as getcwd() reports it; 'logical': the same directory named
+# through the symlink <root>/link -> <root> (what `cd link/src` leaves behind); 'stale': the
+# logical name of ANOTHER directory; 'garbage': not an absolute path
+PWD_KINDS = [False, 'physical', 'logical', 'logical', 'stale', 'garbage']
 
 
 def gen_runs(rng, n):
@@ -288,8 +292,11 @@ def gen_runs(rng, n):
             'spelling': sp, 'cwd': cwd,
             'noise': [list(kv) for kv in rng.sample(NOISE_POOL, rng.randint(0, 10))],
             'order': rng.randint(1, 10 ** 6),       # env dict insertion order = shuffle seed
-            'pwd': rng.random() < 0.5,
+            # $PWD as a shell would (or would not) leave it; the whole scratch tree is also
+            # reachable through a symlink, 'logical' names the cwd through that link
+            'pwd': rng.choice(PWD_KINDS) if i > 2 else ['logical', 'physical'][i - 1],
             'drop': ['LANG'] if rng.random() < 0.3 else [],
+            'via': rng.random() < 0.5,           # process started with cwd spelled through the link
             'bare': rng.random() < 0.3,          # found through PATH instead of /venv/bin/...
         })
     return runs
